@@ -117,7 +117,20 @@ def run(ctx):
         obs += ctx.go_run(b, "^TestVerifC09Replay$", cases=casep, out="obs_replay.ndjson", timeout_s=2400)
     # ---- R3c: stress
     if not ctx.replay:
-        obs += ctx.go_run(b, "^TestVerifC09Stress$", out="obs_stress.ndjson", timeout_s=2400)
+        obs += ctx.go_run(b, "^TestVerifC09Stress$", out="obs_stress.ndjson", timeout_s=2400, death_ok=True)
+        if ctx.last_death is not None:
+            # the server process dying under concurrent queries and reloads is the strongest form of "an operation does not
+            # complete": a Go runtime fatal error (concurrent map access, all goroutines asleep) raised in repository code
+            import re
+            dead = ctx.last_death
+            m = re.search(r"^fatal error: (.*)$", dead, re.M)
+            frames = [f for f in re.findall(r"^\s+(/\S+\.go):\d+", dead, re.M) if "zz_verif" not in f and "/harness/" not in f and "/go/src/" not in f and "/usr/lib/go" not in f and "/pkg/mod/" not in f and "/zzverif/" not in f]
+            if m and frames:
+                ctx.violation({"op": "stress", "outcome": "process-death"},
+                              f"stress run: the process died with `fatal error: {m.group(1)}` in {os.path.basename(frames[0])} while queries ran concurrently with epoch-set changes",
+                              obs={"fatal": m.group(1), "first_repo_frame": frames[0]})
+            else:
+                raise Inconclusive("R3 driver ^TestVerifC09Stress$ died:\n" + "\n".join(dead.splitlines()[-25:]))
     if not ctx.replay:
         obs += ctx.go_run(b, "^TestVerifC09Atomic$", out="obs_atomic.ndjson", timeout_s=1200)
     rejected = ctx.r4_judge(["Trace_EpochSet"], "Trace_EpochSet", obs, timeout_s=1800)
